@@ -276,6 +276,8 @@ def run(ctx, rep):
     c04_recursion.run_depth(ctx, rep)
     c04_recursion.run_threads(ctx, rep)
     c04_recursion.run_fmtself(ctx, rep)
+    from rules import c04_magnitude
+    c04_magnitude.run(ctx, rep)
 
 
 CLIPPY_LINTS = ["unwrap_used", "expect_used", "panic", "todo", "unimplemented", "unreachable", "indexing_slicing", "string_slice"]
